@@ -7,6 +7,7 @@ import (
 	"io"
 	"runtime"
 	"runtime/debug"
+	"sync"
 	"testing"
 	"time"
 
@@ -28,6 +29,7 @@ type pipeline struct {
 	pt     []byte
 	cipher enc.Cipher
 	key    string
+	tamper bool // the document is corrupted before Decrypt: alone, this pipeline fails
 	out    []byte
 	encErr error
 	decErr error
@@ -42,70 +44,87 @@ func body(s *simrt.Sim, tier string) {
 	if runs%40 == 0 {
 		runtime.GC() // GC is off during runs (sync.Pool determinism); collect between them
 	}
+	// package-level state must not leak from one simulated run into the next (a run has to be a
+	// pure function of its tape): start every run with an empty buffer pool
+	enc.BufPool = sync.Pool{New: enc.BufPool.New}
 	np := 2 + s.Choose(3, "pipelines")
 	var ps []*pipeline
+	var perClient [][]*pipeline
 	for i := 0; i < np; i++ {
-		p := &pipeline{id: i, key: fmt.Sprintf("key%d", i), cipher: []enc.Cipher{enc.CipherAESGCM, enc.CipherChaCha20Poly1305}[s.Choose(2, "cipher")]}
-		n := s.Choose(1500, "ptlen")
-		if i == 0 && s.Choose(6, "big") == 0 {
-			n = []int{65535, 65536, 65537}[s.Choose(3, "bigsize")]
+		var mine []*pipeline
+		for r, rounds := 0, 1+s.Choose(3, "rounds"); r < rounds; r++ {
+			p := &pipeline{id: len(ps), key: fmt.Sprintf("key%d", i), cipher: []enc.Cipher{enc.CipherAESGCM, enc.CipherChaCha20Poly1305}[s.Choose(2, "cipher")]}
+			n := s.Choose(1500, "ptlen")
+			if i == 0 && r == 0 && s.Choose(6, "big") == 0 {
+				n = []int{65535, 65536, 65537}[s.Choose(3, "bigsize")]
+			}
+			p.tamper = r == 0 && n > 0 && s.Choose(4, "tamper") == 0
+			p.pt = make([]byte, n)
+			for j := range p.pt {
+				p.pt[j] = byte(j*11+p.id*37) & 0x7f // never the marker byte
+			}
+			ps = append(ps, p)
+			mine = append(mine, p)
 		}
-		p.pt = make([]byte, n)
-		for j := range p.pt {
-			p.pt[j] = byte(j*11+i*37) & 0x7f // never the marker byte
-		}
-		ps = append(ps, p)
+		perClient = append(perClient, mine)
 	}
 	var names []string
-	for _, p := range ps {
-		p := p
-		name := fmt.Sprintf("p%d", p.id)
+	for ci, mine := range perClient {
+		mine := mine
+		name := fmt.Sprintf("p%d", ci)
 		names = append(names, name)
 		s.Go(name, func() {
-			v := &enccommon.Vault{S: s, YieldInCalls: true}
-			src := &simio.Reader{C: s, Data: p.pt, FailAt: -1, MaxChunk: 0}
-			if len(p.pt) < 3000 {
-				src.Palette = []int{64, 500, 4096}
-			}
-			c := p.cipher
-			er, err := enc.Encrypt(src, enc.EncryptOptions{WrapKeyFn: v.Wrap, Algorithm: enc.KeyAlgorithmAES256KW, KeyName: p.key, Cipher: &c})
-			if err != nil {
-				p.encErr = err
-				return
-			}
-			var doc bytes.Buffer
-			buf := make([]byte, 32768)
-			for {
-				var n int
-				var rerr error
-				s.Block("read.enc", func() { n, rerr = er.Read(buf) })
-				doc.Write(buf[:n])
-				if rerr == io.EOF {
-					break
+			for _, p := range mine {
+				v := &enccommon.Vault{S: s, YieldInCalls: true}
+				src := &simio.Reader{C: s, Data: p.pt, FailAt: -1, MaxChunk: 0}
+				if len(p.pt) < 3000 {
+					src.Palette = []int{64, 500, 4096}
 				}
-				if rerr != nil {
-					p.encErr = rerr
-					return
+				c := p.cipher
+				er, err := enc.Encrypt(src, enc.EncryptOptions{WrapKeyFn: v.Wrap, Algorithm: enc.KeyAlgorithmAES256KW, KeyName: p.key, Cipher: &c})
+				if err != nil {
+					p.encErr = err
+					continue
 				}
-			}
-			s.Yield("between")
-			dsrc := &simio.Reader{C: s, Data: doc.Bytes(), FailAt: -1, Palette: []int{100, 512, 70000}}
-			dr, err := enc.Decrypt(dsrc, enc.DecryptOptions{UnwrapKeyFn: v.Unwrapper(p.key)})
-			if err != nil {
-				p.decErr = err
-				return
-			}
-			for {
-				var n int
-				var rerr error
-				s.Block("read.dec", func() { n, rerr = dr.Read(buf) })
-				p.out = append(p.out, buf[:n]...)
-				if rerr != nil {
-					p.endErr = rerr
-					break
+				var doc bytes.Buffer
+				buf := make([]byte, 32768)
+				for {
+					var n int
+					var rerr error
+					s.Block("read.enc", func() { n, rerr = er.Read(buf) })
+					doc.Write(buf[:n])
+					if rerr == io.EOF {
+						break
+					}
+					if rerr != nil {
+						p.encErr = rerr
+						break
+					}
 				}
+				s.Yield("between")
+				if p.tamper {
+					b := doc.Bytes()
+					b[len(b)-1-s.Choose(16, "tamperpos")] ^= 0x40 // inside the last segment / its tag
+					s.Fault("document.tamper")
+				}
+				dsrc := &simio.Reader{C: s, Data: doc.Bytes(), FailAt: -1, Palette: []int{100, 512, 70000}}
+				dr, err := enc.Decrypt(dsrc, enc.DecryptOptions{UnwrapKeyFn: v.Unwrapper(p.key)})
+				if err != nil {
+					p.decErr = err
+					continue
+				}
+				for {
+					var n int
+					var rerr error
+					s.Block("read.dec", func() { n, rerr = dr.Read(buf) })
+					p.out = append(p.out, buf[:n]...)
+					if rerr != nil {
+						p.endErr = rerr
+						break
+					}
+				}
+				p.done = true
 			}
-			p.done = true
 		})
 	}
 	if s.Choose(2, "scribbler") == 0 {
@@ -123,16 +142,18 @@ func body(s *simrt.Sim, tier string) {
 			}
 		})
 	}
-	// logger registry
+	// logger registry (process-wide: names are unique per run so that an execution behaves the
+	// same whether it is the first or the thousandth of its worker process, also when a tape is re-executed)
+	lname := fmt.Sprintf("verif.c08.%d.", runs) // never seen before in this process, like in a fresh one
 	var logA, logB []logger.Logger
 	for i := 0; i < 2; i++ {
 		name := fmt.Sprintf("log%d", i)
 		names = append(names, name)
 		s.Go(name, func() {
 			for j := 0; j < 2; j++ {
-				a := logger.NewLogger("verif.c08.a")
+				a := logger.NewLogger(lname + "a")
 				s.Yield("logger")
-				b := logger.NewLogger("verif.c08.b")
+				b := logger.NewLogger(lname + "b")
 				logA, logB = append(logA, a), append(logB, b)
 			}
 		})
@@ -195,6 +216,13 @@ func body(s *simrt.Sim, tier string) {
 	for _, p := range ps {
 		if bytes.IndexByte(p.out, marker) >= 0 {
 			s.Fail("foreign-bytes-in-result", fmt.Sprintf("pipeline %d: the decrypted stream contains bytes written by another user of the shared buffer pool", p.id))
+		}
+		if p.tamper {
+			// alone, this pipeline fails (corrupted segment) after releasing at most a prefix
+			if p.encErr != nil || (p.decErr == nil && (p.endErr == nil || p.endErr == io.EOF)) || !bytes.HasPrefix(p.pt, p.out) {
+				s.Fail("pipeline-differs-from-solo", fmt.Sprintf("pipeline %d (%d bytes, corrupted document): alone it fails with a decryption error; run concurrently it gave encErr=%v decErr=%v end=%v and %d bytes", p.id, len(p.pt), p.encErr, p.decErr, p.endErr, len(p.out)))
+			}
+			continue
 		}
 		if p.encErr != nil || p.decErr != nil || !p.done || p.endErr != io.EOF || !bytes.Equal(p.out, p.pt) {
 			s.Fail("pipeline-differs-from-solo", fmt.Sprintf("pipeline %d (%d bytes, %s): alone it round-trips; run concurrently it gave encErr=%v decErr=%v end=%v and %d bytes", p.id, len(p.pt), p.cipher, p.encErr, p.decErr, p.endErr, len(p.out)))
